@@ -257,6 +257,8 @@ pub const B_RETAIN_MUT: u8 = 3;
 pub const B_CONVERT: u8 = 4;
 pub const B_APPEND: u8 = 5;
 pub const B_ITER_MUT: u8 = 6;
+/// append of a queue as long as the receiver (N + N elements)
+pub const B_APPEND_EQ: u8 = 7;
 
 pub fn cost_bulk<T: Q, const N: usize>(which: u8, tables: Tables) {
     let mut double = T::DOUBLE;
@@ -284,6 +286,22 @@ pub fn cost_bulk<T: Q, const N: usize>(which: u8, tables: Tables) {
             c = hook::calls();
             hook::stop();
             assert!(o.len() == N);
+        }
+        B_APPEND_EQ => {
+            let (mut q, _gh) = crate::gen::state_keys::<T, N>(Pre::Inv, tables, crate::gen::iota::<N>());
+            let mut okeys = [0u8; N];
+            let mut j = 0;
+            while j < N {
+                okeys[j] = (N + j) as u8;
+                j += 1;
+            }
+            let (mut other, _ogh) = crate::gen::state_keys::<T, N>(Pre::Inv, tables, okeys);
+            n_final = 2 * N;
+            hook::start_count(hook::CB_CMP);
+            q.append(&mut other);
+            c = hook::calls();
+            hook::stop();
+            assert!(q.len() == 2 * N);
         }
         B_APPEND => {
             let (mut q, _gh) = crate::gen::state_keys::<T, N>(Pre::Inv, tables, crate::gen::iota::<N>());
